@@ -91,3 +91,71 @@ func FileProof(data []byte, i int) (leaf [64]byte, path []H) {
 	}
 	return segs[i], Path(hs, i)
 }
+
+// FileTree caches the leaf hashes and the larger subtree roots of one file so that many
+// audit paths can be taken from a big file (sector-sized contracts) without rehashing it.
+type FileTree struct {
+	data   []byte
+	leaves []H
+	memo   map[[2]int]H
+}
+
+func (t *FileTree) seg(i int) (s [64]byte) {
+	copy(s[:], t.data[i*64:])
+	return s
+}
+
+// NewFileTree hashes the leaves of data (64-byte zero-extended leaf convention).
+func NewFileTree(data []byte) *FileTree {
+	t := &FileTree{data: data, memo: map[[2]int]H{}}
+	t.leaves = make([]H, (len(data)+63)/64)
+	for i := range t.leaves {
+		s := t.seg(i)
+		t.leaves[i] = LeafHash(s[:])
+	}
+	return t
+}
+
+// node is MTH(leaves[lo:hi]); subtrees of at least 256 leaves are remembered.
+func (t *FileTree) node(lo, hi int) H {
+	switch hi - lo {
+	case 0:
+		return H{}
+	case 1:
+		return t.leaves[lo]
+	}
+	big := hi-lo >= 256
+	if big {
+		if h, ok := t.memo[[2]int{lo, hi}]; ok {
+			return h
+		}
+	}
+	k := split(hi - lo)
+	h := NodeHash(t.node(lo, lo+k), t.node(lo+k, hi))
+	if big {
+		t.memo[[2]int{lo, hi}] = h
+	}
+	return h
+}
+
+// Root is the RFC 6962 root of the file.
+func (t *FileTree) Root() H { return t.node(0, len(t.leaves)) }
+
+// NumLeaves is the number of 64-byte leaves.
+func (t *FileTree) NumLeaves() int { return len(t.leaves) }
+
+// Proof returns leaf i and its audit path, ordered from the leaf towards the root.
+func (t *FileTree) Proof(i int) (leaf [64]byte, path []H) {
+	var rec func(lo, hi int) []H
+	rec = func(lo, hi int) []H {
+		if hi-lo <= 1 {
+			return nil
+		}
+		k := split(hi - lo)
+		if i < lo+k {
+			return append(rec(lo, lo+k), t.node(lo+k, hi))
+		}
+		return append(rec(lo+k, hi), t.node(lo, lo+k))
+	}
+	return t.seg(i), rec(0, len(t.leaves))
+}
